@@ -889,6 +889,11 @@ def depends_on(c, chk):
     sub16 = report.SubCheck(chk, 'R1.12', 'C16', only=('R16.1',))
     c16.run(c, sub16)
     sub16.done('schema copy')
+    # R1.15: what follows an include() line in the text is part of the text: the end of an included file (or of a default value
+    # scanned while one is open) returns to the including source, it does not end the input (the include bookkeeping of C07 R7.6)
+    from . import c07 as _c07x, c08 as _c08p
+    chk.rule('R1.15', 'the end of an included file or of a default-value text leaves the include depth right: the rest of the including text is read (rule R7.6 of C07)')
+    _c07x.include_rule(c, _c08p.chk_proxy(chk, {'R7.6': 'R1.15'}), sym.Explorer(c.modules, max_visits=2, mod_sets=c.mod_sets, max_paths=50000))
     # R1.14: a function call in the text means "this function, these arguments": the arguments of one call are not those of
     # the calls before it (rule R14.4 of C14: the buffer is emptied after every call)
     from . import c14 as _c14x
